@@ -121,3 +121,103 @@ def lex_rest(h, r, dg):
 @W.spec([STR, BOOL], SEQ(TOKEN))
 def lex(s, dg):
     return [] if len(s) == 0 else lex_tokens(s[0], s[1:], dg) + lex(lex_rest(s[0], s[1:], dg), dg)
+
+
+# ---------------------------------------------------------------- parser: branch collection
+import vyxal.parse as _parse
+
+OPENING = _parse.OPENING_CHARACTERS
+CLOSING = _parse.CLOSING_CHARACTERS
+BRANCHES = SEQ(SEQ(TOKEN))
+W.clause_globals.update(OPENING=OPENING, CLOSING=CLOSING, DIGITS=DIGITS, LETTERS=LETTERS, TokenType=TokenType, Token=Token)
+
+
+@W.spec([TOKEN], BOOL)
+def tok_ok(t):
+    """shape of the GENERAL tokens the lexer produces: one character, or a digraph"""
+    return implies(t.name == TokenType.GENERAL, len(t.value) == 1 or (len(t.value) == 2 and t.value[0] in "k∆øÞ¨"))
+
+
+@W.spec([SEQ(TOKEN)], BOOL)
+def toks_ok(ts):
+    return True if len(ts) == 0 else (tok_ok(ts[0]) and toks_ok(ts[1:]))
+
+
+@W.spec([STR], STR)
+def closer_of(c):
+    """closing character of the structure opened by c"""
+    return CLOSING[OPENING.find(c)]
+
+
+@W.spec([TOKEN], BOOL)
+def is_opener(t):
+    return t.name == TokenType.GENERAL and len(t.value) > 0 and t.value in OPENING
+
+
+@W.spec([TOKEN], BOOL)
+def is_closer(t):
+    return t.name == TokenType.GENERAL and len(t.value) > 0 and t.value in CLOSING
+
+
+@W.spec([TOKEN], BOOL)
+def is_bar(t):
+    return t.name == TokenType.GENERAL and t.value == "|"
+
+
+@W.spec([STR, TOKEN], STR)
+def bs_step(bs, t):
+    """bracket stack (a string of expected closers, innermost last) after reading token t"""
+    return bs + closer_of(t.value) if is_opener(t) else (bs[:-1] if (not is_bar(t)) and is_closer(t) and t.value == bs[-1] else bs)
+
+
+@W.spec([BRANCHES, TOKEN], BRANCHES)
+def push_last(br, t):
+    return br[:-1] + [br[-1] + [t]]
+
+
+@W.spec([BRANCHES, STR, TOKEN], BRANCHES)
+def br_step(br, bs, t):
+    """branches after reading token t with bracket stack bs (before the step)"""
+    return (
+        push_last(br, t)
+        if is_opener(t)
+        else (br + [[]] if len(bs) == 1 else push_last(br, t))
+        if is_bar(t)
+        else ((push_last(br, t) if len(bs) > 1 else br) if t.value == bs[-1] else br)
+        if is_closer(t)
+        else push_last(br, t)
+    )
+
+
+@W.spec([SEQ(TOKEN), STR, BRANCHES], BRANCHES)
+def gb_branches(ts, bs, br):
+    """branches collected from ts while the bracket stack is non-empty"""
+    return br if len(ts) == 0 or len(bs) == 0 else gb_branches(ts[1:], bs_step(bs, ts[0]), br_step(br, bs, ts[0]))
+
+
+@W.spec([SEQ(TOKEN), STR], SEQ(TOKEN))
+def gb_rest(ts, bs):
+    """tokens left over after the structure is closed"""
+    return ts if len(ts) == 0 or len(bs) == 0 else gb_rest(ts[1:], bs_step(bs, ts[0]))
+
+
+@W.spec([SEQ(TOKEN), STR], STR)
+def gb_stack(ts, bs):
+    return bs if len(ts) == 0 or len(bs) == 0 else gb_stack(ts[1:], bs_step(bs, ts[0]))
+
+
+@W.spec([STR], SEQ(TOKEN))
+def closers(bs):
+    """the closing tokens that close every structure of the bracket stack bs, innermost first"""
+    return [] if len(bs) == 0 else [Token(TokenType.GENERAL, bs[-1])] + closers(bs[:-1])
+
+
+@W.spec([STR], BOOL)
+def all_closing(bs):
+    return True if len(bs) == 0 else (bs[-1] in CLOSING and all_closing(bs[:-1]))
+
+
+@W.spec([STR], BOOL)
+def strbody(p):
+    """payload language of a back-quoted string: no unescaped back-quote, no lone trailing backslash"""
+    return True if len(p) == 0 else ((len(p) >= 2 and strbody(p[2:])) if p[0] == "\\" else (p[0] != "`" and strbody(p[1:])))
